@@ -281,6 +281,27 @@ def configs(quick, rng, tix=None, rel=None):
                                  "\tcase []*fast.Node:\n\t\treturn marks(len(x), func(i int) any { return x[i] })\n"
                                  "\tcase []*bast.Node:\n\t\treturn marks(len(x), func(i int) any { return x[i] })\n")
         out[-1]["foreign"] = True
+    # rule result types declared through aliases whose *target* the user's package cannot name: a facade alias to a type of an
+    # internal package, and an exported alias to an unexported type.  Generated code has to spell the type the way the
+    # programmer did (the alias), or it does not compile
+    MK["*syntax.Node"] = "syntax.NewNode(%s)"
+    MK["syntax.Label"] = "syntax.NewLabel(%s)"
+    for pid, rx, ry, px, pys in (("imports:alias-to-internal-type", "*syntax.Node", "*syntax.Node", "*syntax.Node", "[]*syntax.Node"),
+                                 ("imports:alias-to-unexported-type", "syntax.Label", "syntax.Label", "syntax.Label", "[]syntax.Label"),
+                                 ("imports:alias-mixed", "*syntax.Node", "syntax.Label", "*syntax.Node", "[]syntax.Label")):
+        ms = base_methods(rx, ry, "Dict", px, pys, "Dict")
+        add(pid, rx, ry, "Dict", ms)
+        out[-1]["imports"] = [("syntax", "syntax")]
+        out[-1]["subpkgs"] = {
+            "syntax/syntax.go": "package syntax\n\nimport \"xv/PKGNAME/syntax/internal/tree\"\n\ntype Node = tree.Node\n\ntype label struct{ M int }\n\n"
+                                "type Label = label\n\nfunc NewNode(m int) *Node { return &tree.Node{M: m} }\n\nfunc NewLabel(m int) Label { return label{M: m} }\n\n"
+                                "func MarkOf(l Label) int { return l.M }\n",
+            "syntax/internal/tree/tree.go": "package tree\n\ntype Node struct{ M int }\n"}
+        out[-1]["mark_cases"] = ("\tcase *syntax.Node:\n\t\tif x == nil {\n\t\t\treturn 0\n\t\t}\n\t\treturn x.M\n"
+                                 "\tcase syntax.Label:\n\t\treturn syntax.MarkOf(x)\n"
+                                 "\tcase []*syntax.Node:\n\t\treturn marks(len(x), func(i int) any { return x[i] })\n"
+                                 "\tcase []syntax.Label:\n\t\treturn marks(len(x), func(i int) any { return x[i] })\n")
+        out[-1]["foreign"] = True
     if quick:
         keep = [c for c in out if c["id"].startswith("layout") or c["id"].startswith("imports") or c["id"].startswith("tok") or c["id"].startswith("compile")
                 or c["id"].startswith("err->") or c["id"].startswith("x:Token")]
@@ -327,7 +348,7 @@ def c06(tier):
         open(os.path.join(d, "p.go"), "w").write(render(c, pkg))
         for rel, txt in (c.get("subpkgs") or {}).items():
             os.makedirs(os.path.dirname(os.path.join(d, rel)), exist_ok=True)
-            open(os.path.join(d, rel), "w").write(txt)
+            open(os.path.join(d, rel), "w").write(txt.replace("PKGNAME", pkg))
         q = subprocess.run([lox, d], cwd=mod, env=GOENV, stdout=subprocess.PIPE, stderr=subprocess.PIPE, timeout=120)
         c["pkg"], c["dir"] = pkg, d
         c["ok"] = q.returncode == 0
